@@ -15,34 +15,57 @@ from . import common, ctx
 from .gen import rng_for, to_json
 from .workload import TGen
 
-MODES = ("fresh", "user", "nodetail", "rereg")
+MODES = ("fresh", "user", "nodetail", "forbid", "custom", "rereg")
+CREATION_MODES = ("fresh", "user", "nodetail", "forbid", "custom")
 
 
-def build_battery(mm, py, n=110):
-    """Fixed (label, class name accessor, json) pairs, incl. inputs that must raise."""
+def build_battery(mm, py, heavy=True):
+    """Fixed (label, class, json) items: one value per root, forced union alternatives in
+    representative shapes (hooks that decide on shape), inputs that must raise, inputs with
+    undeclared keys (sensitive to forbid_extra_keys), nested Position/MarkupKind values
+    (sensitive to user-registered hooks)."""
+    from .workload import forced_cases
+
     bat = []
     roots = py.roots(("S", "REQ", "RESP", "NOTIF"))
-    step = max(1, len(roots) // n)
-    for x, root in enumerate(roots[::step][:n]):
+    for x, root in enumerate(roots):
         if root.cls is None:
             continue
-        g = TGen(mm, rng_for("C19-battery", root.label), maxdepth=3, p_opt=[0.0, 0.5, 1.0][x % 3])
-        bat.append((root.label, root.cls, to_json(g.gen(root.t))))
+        if x % 6 == 0:
+            g = TGen(mm, rng_for("C19-battery", root.label), maxdepth=3, p_opt=[0.0, 0.5, 1.0][x % 3])
+            bat.append((root.label, root.cls, to_json(g.gen(root.t))))
+        if heavy and (root.kind == "RESP" or x % 3 == 0):
+            seen = set()
+            for lab, tree, site, alt in forced_cases(mm, root, "C19-battery", containers=(0.0,)):
+                if (site, alt) in seen:
+                    continue
+                seen.add((site, alt))
+                bat.append((lab, root.cls, to_json(tree)))
     T = py.T
-    bad = [
+    rng_ = {"start": {"line": 1, "character": 2}, "end": {"line": 3, "character": 4}}
+    extra = [
         (T.Position, {"line": -1, "character": 0}),
         (T.Position, {"line": 1}),
         (T.Position, {"line": 2**31, "character": 0}),
         (T.Range, {"start": {"line": 1, "character": 1}}),
         (T.CreateFile, {"kind": "rename", "uri": "file:///a"}),
-        (T.Diagnostic, {"range": {"start": {"line": 0, "character": 0}, "end": {"line": 0, "character": 0}}, "message": "m", "severity": 99}),
+        (T.Diagnostic, {"range": rng_, "message": "m", "severity": 99}),
         (T.TextDocumentItem, {"uri": "u", "languageId": "l", "version": "1", "text": "t"}),
         (T.ServerCapabilities, {"textDocumentSync": 987654}),
         (T.Location, {"uri": "u"}),
         (T.InitializeRequest, {"jsonrpc": "2.0", "id": 1, "method": "bogus", "params": {"capabilities": {}}}),
+        # undeclared keys (forward compatibility; a forbid_extra_keys converter must say no)
+        (T.Position, {"line": 1, "character": 2, "zzUnknown9": True}),
+        (T.Location, {"uri": "file:///a", "range": dict(rng_, zzUnknown9=1)}),
+        (T.Hover, {"contents": {"kind": "markdown", "value": "v"}, "range": rng_, "x-verif-ext": None}),
+        # nested leaves a user hook may own
+        (T.Hover, {"contents": {"kind": "plaintext", "value": "v"}, "range": rng_}),
+        (T.Location, {"uri": "file:///a", "range": rng_}),
+        (T.DefinitionResponse, {"jsonrpc": "2.0", "id": 1, "result": [{"targetUri": "file:///b", "targetRange": rng_, "targetSelectionRange": rng_}]}),
+        (T.DefinitionResponse, {"jsonrpc": "2.0", "id": 1, "result": [{"targetUri": "file:///b", "targetRange": rng_, "targetSelectionRange": rng_, "originSelectionRange": rng_}, {"targetUri": "file:///c", "targetRange": rng_, "targetSelectionRange": rng_}]}),
     ]
-    for cls, j in bad:
-        bat.append(("BAD " + cls.__name__, cls, j))
+    for cls, j in extra:
+        bat.append(("X " + cls.__name__, cls, j))
     return bat
 
 
@@ -50,9 +73,9 @@ def run_battery(conv, bat):
     out = []
     for lab, cls, j in bat:
         try:
-            out.append(json.dumps(conv.unstructure(conv.structure(j, cls), cls), sort_keys=True))
-        except Exception:
-            out.append("raises")
+            out.append(json.dumps(conv.unstructure(conv.structure(j, cls), cls), sort_keys=True, default=repr))
+        except Exception as e:
+            out.append("raises:" + type(e).__name__)
     return out
 
 
@@ -60,64 +83,130 @@ def digest(res):
     return hashlib.sha256("\n".join(res).encode()).hexdigest()[:16]
 
 
-def make(py, mode, live):
+def user_converter(py, mode):
+    """A user-supplied cattrs converter in the given configuration (before lsprotocol touches it)."""
     cattrs = py.cattrs
-    if mode == "fresh":
-        return py.cv.get_converter()
     if mode == "user":
-        return py.cv.get_converter(cattrs.Converter())
+        return cattrs.Converter()
     if mode == "nodetail":
-        return py.cv.get_converter(cattrs.Converter(detailed_validation=False))
-    if mode == "rereg":
-        target = live[-1] if live else cattrs.Converter()
-        return py.cv.get_converter(target)
+        return cattrs.Converter(detailed_validation=False)
+    if mode == "forbid":
+        return cattrs.Converter(forbid_extra_keys=True)
+    if mode == "custom":
+        c = cattrs.Converter()
+        T = py.T
+        # the user's own hooks for two leaf types: their converter must keep honouring them
+        c.register_unstructure_hook(T.MarkupKind, lambda v: "verif:" + v.value)
+        c.register_structure_hook(T.MarkupKind, lambda v, _: T.MarkupKind(v[6:] if isinstance(v, str) and v.startswith("verif:") else v))
+        c.register_unstructure_hook(T.Position, lambda p: {"line": p.line, "character": p.character, "verifOwner": "user"})
+        return c
     raise ValueError(mode)
 
 
+def make(py, mode, live):
+    if mode == "fresh":
+        return py.cv.get_converter(), "fresh"
+    if mode == "rereg":
+        if live:
+            conv, m = live[-1]
+            return py.cv.get_converter(conv), m
+        return py.cv.get_converter(py.cattrs.Converter()), "user"
+    return py.cv.get_converter(user_converter(py, mode)), mode
+
+
+REF_SCRIPT = r"""
+import sys, json
+sys.path.insert(0, %(verif)r)
+from vf import ctx, c19
+from vf.mm import MM
+from vf.pyside import Py
+mm = MM.load(ctx.mm_path())
+# import the package WITHOUT creating any converter first: the mode under test is the first one
+import importlib
+pkg = ctx.pkg_root()
+sys.path.insert(0, pkg)
+class P: pass
+py = P(); py.mm = mm
+import attrs, cattrs
+py.attrs, py.cattrs = attrs, cattrs
+py.T = importlib.import_module("lsprotocol.types"); py.cv = importlib.import_module("lsprotocol.converters")
+conv, m = c19.make(py, %(mode)r, [])
+full = Py(pkg, mm)
+bat = c19.build_battery(mm, full, heavy=%(heavy)r)
+print(json.dumps({"mode": %(mode)r, "n": len(bat), "results": c19.run_battery(conv, bat)}))
+"""
+
+
+def mode_reference(mode, heavy):
+    """Results of a converter of this mode created FIRST in a fresh process."""
+    code = REF_SCRIPT % {"verif": common.VERIF, "mode": mode, "heavy": heavy}
+    env = dict(os.environ, PYTHONPATH=common.VERIF, PYTHONHASHSEED="0")
+    p = subprocess.run([common.PY, "-c", code], env=env, cwd=common.VERIF, capture_output=True, text=True, timeout=900)
+    if p.returncode != 0:
+        return None, p.stderr[-500:]
+    return json.loads(p.stdout.strip().splitlines()[-1]), ""
+
+
+def histories(tier, seed):
+    hs = [h for L in (1, 2) for h in itertools.product(MODES, repeat=L)]
+    r = rng_for(seed, "C19-hist")
+    extra = 24 if tier == "quick" else 400
+    if tier != "quick":
+        hs += list(itertools.product(MODES, repeat=3))
+    for _ in range(extra):
+        hs.append(tuple(r.choice(MODES) for _ in range(r.choice([3, 4, 5]))))
+    return hs
+
+
 def shard(i, n, args):
-    """Histories (single thread)."""
-    tier = args[0]
+    """Histories (single thread).  refs: mode -> results of that mode created first in a fresh process."""
+    tier, refpath = args[0], args[1]
+    refs = json.load(open(refpath))
     mm, py = ctx.load()
-    bat = build_battery(mm, py)
-    ref = run_battery(py.conv, bat)
-    res = {"histories": 0, "battery": len(bat), "battery_raises": ref.count("raises"), "creations": 0, "battery_runs": 0, "failures": {}, "ref": digest(ref), "samples": []}
+    heavy = True
+    bat = build_battery(mm, py, heavy=heavy)
+    res = {"histories": 0, "battery": len(bat), "battery_raises": sum(1 for x in refs["fresh"] if x.startswith("raises")), "creations": 0, "battery_runs": 0, "failures": {}, "samples": [], "modes_seen": {}}
     fails = res["failures"]
 
     def fail(key, wit):
         e = fails.setdefault(key, {"count": 0, "witness": wit})
         e["count"] += 1
 
-    maxlen = 3 if tier == "quick" else 4
-    hists = [h for L in range(1, maxlen + 1) for h in itertools.product(MODES, repeat=L)]
-    for x, hist in enumerate(hists):
+    if len(refs["fresh"]) != len(bat):
+        fail("battery differs between processes", {"here": len(bat), "reference": len(refs["fresh"])})
+        return res
+    for x, hist in enumerate(histories(tier, common.seed())):
         if x % n != i:
             continue
         res["histories"] += 1
         live = []
         for step, mode in enumerate(hist):
             try:
-                c = make(py, mode, live)
+                c, m = make(py, mode, live)
             except Exception as e:
                 fail("converter creation raises|%s" % mode, {"history": hist, "step": step, "error": repr(e)[:200]})
                 break
             res["creations"] += 1
-            if not any(c is l for l in live):
-                live.append(c)
-            for k, lc in enumerate(live):
-                r = run_battery(lc, bat)
-                res["battery_runs"] += 1
-                if r != ref:
-                    idx = [q for q, (a, b) in enumerate(zip(r, ref)) if a != b][:3]
-                    fail("converter results differ|created-as=%s" % (hist[k] if k < len(hist) else "?"), {"history": hist, "after_step": step, "converter_index": k, "battery_items": [bat[q][0] for q in idx], "got": [r[q][:200] for q in idx], "expected": [ref[q][:200] for q in idx]})
+            res["modes_seen"][m] = res["modes_seen"].get(m, 0) + 1
+            if not any(c is l[0] for l in live):
+                live.append((c, m))
+        # after the whole history: every live converter still behaves like a first-created one of its mode
+        for k, (lc, m) in enumerate(live):
+            r = run_battery(lc, bat)
+            res["battery_runs"] += 1
+            ref = refs[m]
+            if r != ref:
+                idx = [q for q, (a, b) in enumerate(zip(r, ref)) if a != b][:3]
+                fail("converter behaves differently from a first-created converter of the same configuration|mode=%s" % m, {"history": hist, "converter_index": k, "battery_items": [bat[q][0] for q in idx], "input": [bat[q][2] for q in idx][:1], "got": [r[q][:300] for q in idx], "expected": [ref[q][:300] for q in idx]})
         if len(res["samples"]) < 2:
-            res["samples"].append({"history": list(hist), "live_converters": len(live)})
+            res["samples"].append({"history": list(hist), "live_converters": [m for _, m in live]})
     # the hundredth converter
     if i == 0:
         last = None
         for k in range(100):
             last = py.cv.get_converter()
             res["creations"] += 1
-        if run_battery(last, bat) != ref:
+        if run_battery(last, bat) != refs["fresh"]:
             fail("hundredth converter differs", {})
         res["battery_runs"] += 1
     return res
@@ -182,7 +271,7 @@ sys.setswitchinterval(0.005)
 mm = MM.load(ctx.mm_path())
 from vf.pyside import Py
 py = Py(pkg, mm)
-bat = c19.build_battery(mm, py)
+bat = c19.build_battery(mm, py, heavy=False)
 results = [None] * nthreads
 def b(k):
     if convs[k] is None: return
@@ -218,15 +307,44 @@ def run_trial(n, seed, inject, p=0.5, watchdog=240):
 def main(tier):
     rep = common.Report("C19", tier)
     nsh = 4 if tier == "quick" else common.NCPU
-    results, inconc = common.run_shards("c19", nsh, args=[tier])
+    # per-configuration references: that configuration created FIRST in a fresh process
+    refs, light = {}, {}
+    with ThreadPoolExecutor(len(CREATION_MODES) * 2) as ex:
+        futs = {(m, h): ex.submit(mode_reference, m, h) for m in CREATION_MODES for h in (True, False)}
+        for (m, h), f in futs.items():
+            d, err = f.result()
+            if d is None:
+                rep.inconc("reference process for mode %s failed: %s" % (m, err[-200:]))
+                continue
+            (refs if h else light)[m] = d["results"]
+    if len(refs) != len(CREATION_MODES):
+        return rep.finish({"evaluations": 1, "distinct_nontrivial": 2, "rule": "n/a", "samples": [{}]})
+    # configurations that must not change results: a user-supplied plain converter, and detailed
+    # validation off (only the exception class of a rejection may differ)
+    norm = lambda L: [x if not x.startswith("raises") else "raises" for x in L]
+    for m in ("user", "nodetail"):
+        a, b = norm(refs[m]), norm(refs["fresh"])
+        if a != b:
+            idx = [q for q, (x, y) in enumerate(zip(a, b)) if x != y][:3]
+            rep.fail("configuration changes results|mode=%s" % m, {"battery_index": idx, "got": [refs[m][q][:300] for q in idx], "default_converter": [refs["fresh"][q][:300] for q in idx]})
+    # the configurations must be distinguishable by the battery, else the comparison has no power
+    for m in ("nodetail", "forbid", "custom"):
+        if refs[m] == refs["fresh"]:
+            rep.inconc("battery cannot tell configuration %s from the default one" % m)
+    d = common.scratch_dir("vf-c19-")
+    refpath = os.path.join(d, "refs.json")
+    json.dump(refs, open(refpath, "w"))
+    try:
+        results, inconc = common.run_shards("c19", nsh, args=[tier, refpath])
+    finally:
+        import shutil
+
+        shutil.rmtree(d, ignore_errors=True)
     for r in inconc:
         rep.inconc(r)
     for r in results:
         rep.merge_failures(r["failures"])
-    refs = {r["ref"] for r in results}
-    if len(refs) > 1:
-        rep.fail("sequential reference differs between processes", {"digests": sorted(refs)})
-    ref = next(iter(refs)) if refs else None
+    ref = digest(light["fresh"]) if "fresh" in light else None
     # ---- schedules
     ntrials = 24 if tier == "quick" else 320
     plan = []
@@ -276,10 +394,12 @@ def main(tier):
     cov = {
         "evaluations": hist_n + ntrials,
         "distinct_nontrivial": len(inter) + hist_n,
-        "rule": "histories: all sequences up to length k over {fresh, user-supplied, detailed_validation off, re-register}, battery on all live converters after each creation; schedules: fresh process per trial, N in {2,4,8,16} threads released by a barrier into their first get_converter() with switch interval 1e-6 and seeded LINE-event yield injection in lsprotocol._hooks / attrs.resolve_types, then the battery on every converter; non-trivial = distinct history or distinct interleaving (hash of the (thread, function, line) sequence in the critical code)",
+        "rule": "histories: all sequences up to length 2 (thorough 3) + seeded longer ones over {fresh, user-supplied plain / detailed_validation off / forbid_extra_keys / with the user's own leaf hooks, re-register}; after each history every live converter must give exactly the battery results of a converter of its configuration created FIRST in a fresh process; schedules: fresh process per trial, N in {2,4,8,16} threads released by a barrier into their first get_converter() with switch interval 1e-6 and seeded LINE-event yield injection in lsprotocol._hooks / attrs.resolve_types, then the battery on every converter; non-trivial = distinct history or distinct interleaving (hash of the (thread, function, line) sequence in the critical code)",
         "histories": hist_n,
         "battery_size": results[0]["battery"] if results else 0,
         "battery_items_that_raise": results[0]["battery_raises"] if results else 0,
+        "configurations": list(CREATION_MODES),
+        "configurations_distinguished_by_battery": [m for m in CREATION_MODES if refs.get(m) != refs.get("fresh")],
         "battery_runs": sum(r["battery_runs"] for r in results),
         "converter_creations": sum(r["creations"] for r in results),
         "schedule_trials": ntrials,
